@@ -69,23 +69,23 @@ type callState struct {
 
 type ConnRun struct {
 	*Run
-	cfg     ConnCfg
-	wire    *Wire
-	conn    *rpc.Conn
-	server  *rpc.Server
-	svc     *Svc
-	ccodec  *hcodec
-	scodec  *hcodec
-	marshal *gate
-	finish  *gate
-	closeG  *gate
-	wfail   sync.Map // id -> true: next write of this call fails
-	calls   map[int]*callState
-	srvDone chan struct{}
-	notes   []string
-	waitMs  int
+	cfg      ConnCfg
+	wire     *Wire
+	conn     *rpc.Conn
+	server   *rpc.Server
+	svc      *Svc
+	ccodec   *hcodec
+	scodec   *hcodec
+	marshal  *gate
+	finish   *gate
+	closeG   *gate
+	wfail    sync.Map // id -> true: next write of this call fails
+	calls    map[int]*callState
+	srvDone  chan struct{}
+	notes    []string
+	waitMs   int
 	closeRes []string
-	wg      sync.WaitGroup
+	wg       sync.WaitGroup
 }
 
 func classify(err error, reply *Reply) (string, int) {
